@@ -1354,18 +1354,16 @@ impl ContinuityStore {
                 break;
             }
 
-            let resolved = self
-                .stream_cache
-                .message_by_ordinal_messages_runs_v1(thread_id, ordinal)
-                .ok()
-                .flatten()
-                .or_else(|| {
-                    message_events.as_ref().and_then(|events| {
-                        let idx = (ordinal - 1) as usize;
-                        let (seq, id) = events.get(idx)?.clone();
-                        Some((seq, id))
-                    })
-                });
+            // When the message list of the replay is in hand the ordinal index has just failed its
+            // validation for the count: its records are not consulted for the look-ups either.
+            let resolved = match message_events.as_ref() {
+                Some(events) => events.get((ordinal - 1) as usize).cloned(),
+                None => self
+                    .stream_cache
+                    .message_by_ordinal_messages_runs_v1(thread_id, ordinal)
+                    .ok()
+                    .flatten(),
+            };
             let (to_seq, to_message_id) = match resolved {
                 Some((to_seq, to_message_id)) => (to_seq, to_message_id),
                 None => {
